@@ -32,14 +32,12 @@ Fixpoint episode_actions (tr : list tstep) : list nat :=
   | (m, a, d) :: rest => if d then [a] else a :: episode_actions rest
   end.
 
-(* C01: implementation masks inside model masks, done equal; specification holds on the completed episode.
-   code 6 = the independent feasibility predicate is false on the implementation's own episode;
-   code 19 = the instance is outside the documented format (wfb false): not a failure of the property *)
+(* C01: the specification evaluated on the implementation's completed episode first (code 6 = the independent
+   feasibility predicate is false on it: a concrete failing input, whatever the model says), then implementation
+   masks inside model masks and done equal *)
 Definition check_C01 (c : mtvrp_case) : Z :=
-  let r := check_trace (E:=M) (c_inst c) 0 (c_trace c) in
-  if negb (r =? 0) then r
-  else if c_complete c && negb (mtvrp_feasibleb (c_inst c) (c_slack c) (episode_actions (c_trace c))) then 6
-  else 0.
+  if c_complete c && negb (mtvrp_feasibleb (c_inst c) (c_slack c) (episode_actions (c_trace c))) then 6
+  else check_trace (E:=M) (c_inst c) 0 (c_trace c).
 
 (* C02: on the implementation's observables, then mask/done equality with the model *)
 Definition check_C02 (c : mtvrp_case) : Z :=
@@ -57,12 +55,12 @@ Definition check_C03 (c : mtvrp_case) : Z :=
 (* C05: model masks inside implementation masks *)
 Definition check_C05 (c : mtvrp_case) : Z := check_trace (E:=M) (c_inst c) 1 (c_trace c).
 
-(* C06: model of the checker agrees with the implementation's verdict (13); the verdict agrees with the
-   specification: feasible => accepted (14), infeasible beyond the slack => rejected (15) *)
+(* C06: the implementation's verdict against the specification first: feasible => accepted (14), infeasible beyond
+   the slack => rejected (15) -- concrete failing inputs; then the model of the checker against the verdict (13) *)
 Definition c06 (i : mtvrp_inst) (slack : Z) (acts : list nat) (verdict : bool) : Z :=
-  if negb (Bool.eqb (mtvrp_checker f32 i acts) verdict) then 13
-  else if mtvrp_feasibleb i 0 acts && negb verdict then 14
+  if mtvrp_feasibleb i 0 acts && negb verdict then 14
   else if negb (mtvrp_feasibleb i (3 * slack) acts) && verdict then 15
+  else if negb (Bool.eqb (mtvrp_checker f32 i acts) verdict) then 13
   else 0.
 Definition check_C06 (c : mtvrp_case) : Z := c06 (c_inst c) (c_slack c) (trace_actions (c_trace c)) (c_checker c).
 
